@@ -138,7 +138,7 @@ pub fn all() -> Vec<Prop> {
                 "claimed only over the fault-reachable neighbourhood of valid artefacts, not over grammar-directed adversarial constructions (DESIGN.md 4 / C04)",
                 "stack bound = 2 MiB (default of std and rayon worker threads)",
             ],
-            batches: vec![Batch { name: "faulted", scenario: crate::scen_f::c04_faulted, quick: 40000, thorough: 800000, varies: "storage faults on stored artefacts x read faults (short reads, EINTR, hard error, early EOF) x loader schedule x allocator budget x 2 MiB stack" }],
+            batches: vec![Batch { name: "faulted", scenario: crate::scen_f::c04_faulted, quick: 30000, thorough: 600000, varies: "storage faults on stored artefacts x read faults (short reads, EINTR, hard error, early EOF) x loader schedule x allocator budget x 2 MiB stack" }],
         },
     ]
 }
